@@ -349,6 +349,30 @@ def _lemma_quat_cs():
     return _LEMMAS["cs"]
 
 
+LEMMA_TEXT = {
+    "qt": ("quaternion-trace: |p| = |q| = 1  ==>  4<p,q>^2 = 1 + trace(R(p)^T R(q))", "one z3 query (non-linear reals), unaided"),
+    "eo": ("Euler-matrix orthogonality: c_j^2 + s_j^2 = 1 (j = 1..3)  ==>  M^T M = I for M = Euler matrix of (zxz | ZXZ | ZYZ | zyx)", "one z3 query per sequence, unaided"),
+    "cs": ("Cauchy-Schwarz for unit quaternions: |p| = |q| = 1  ==>  <p,q>^2 <= 1",
+           "two z3 queries: |p|^2 |q|^2 = 1 from the premises; then the goal from that and the hints (p_i q_j - p_j q_i)^2 >= 0 (Lagrange's identity is seen by the monomial abstraction)"),
+}
+
+
+def lemma_report(keys):
+    """Re-prove (in this process, timed) the hinted lemmas the workers relied on; for the evidence file."""
+    import time as _t
+    out = []
+    for k in keys:
+        fn = {"qt": _lemma_quat_trace, "eo": _lemma_euler_orthogonal, "cs": _lemma_quat_cs}.get(k)
+        if fn is None:
+            continue
+        _LEMMAS.pop(k, None)
+        t0 = _t.time()
+        ok = fn()
+        out.append({"lemma": LEMMA_TEXT[k][0], "proof": LEMMA_TEXT[k][1], "proved_unsat": bool(ok), "seconds": round(_t.time() - t0, 2),
+                    "use": "asserted as an axiom instance for the rotations of a path only when proved in the same process"})
+    return out
+
+
 def orthogonality_lemmas(M, leaf=False):
     """Instances M^T M = I for a rotation matrix of the path (they let the back ends see |R z| = 1, trace(R^T R) = 3).
     Matrices built directly from Euler angles are instances of the generic lemma; others are proved individually."""
